@@ -83,3 +83,19 @@ pub open spec fn live_txt(l: Option<Seq<DnsRecordIntf>>, text: Seq<u8>, now: u64
 pub open spec fn live_addr(l: Seq<DnsRecordIntf>, n: int, ip: int, now: u64) -> bool {
     exists|i: int| 0 <= i < n && (#[trigger] l[i]).record.addr_view() is Some && ip_of(l[i].record.addr_view()->Some_0) == ip && live(l[i], now)
 }
+// what ResolvedService::is_valid tests: type, name, host and at least one address are known
+pub open spec fn svc_valid(s: ResolvedService) -> bool {
+    s.ty_domain@.len() > 0 && s.fullname@.len() > 0 && s.host@.len() > 0 && !(s.addresses@ =~= Set::<ScopedIp>::empty())
+}
+// the instance can be resolved whichever live SRV record is picked: there is a live SRV record, and every live record of the
+// list is an SRV record with a target that has a live address record
+pub open spec fn has_live_addr(c: DnsCache, host: Seq<char>, now: u64) -> bool {
+    c.addr_list(lower(host)) is Some && exists|k: int| 0 <= k < c.addr_list(lower(host))->Some_0.len() && live(#[trigger] c.addr_list(lower(host))->Some_0[k], now) && c.addr_list(lower(host))->Some_0[k].record.addr_view() is Some
+}
+pub open spec fn all_live_srv_resolvable(c: DnsCache, fullname: Seq<char>, now: u64) -> bool {
+    c.srv_list(fullname) is Some
+    && (exists|i: int| 0 <= i < c.srv_list(fullname)->Some_0.len() && live(#[trigger] c.srv_list(fullname)->Some_0[i], now))
+    && forall|i: int| 0 <= i < c.srv_list(fullname)->Some_0.len() && live(#[trigger] c.srv_list(fullname)->Some_0[i], now) ==>
+        c.srv_list(fullname)->Some_0[i].record.srv_view() is Some && c.srv_list(fullname)->Some_0[i].record.srv_view()->Some_0.0.len() > 0
+        && has_live_addr(c, c.srv_list(fullname)->Some_0[i].record.srv_view()->Some_0.0, now)
+}
